@@ -29,6 +29,7 @@ import (
 	"github.com/Eyevinn/mp4ff/mp4"
 	"pgregory.net/rapid"
 
+	"verif/internal/boxgen"
 	"verif/internal/boxwalk"
 	"verif/internal/fragbuild"
 	"verif/internal/harness"
@@ -81,12 +82,13 @@ type rangeQ struct {
 }
 
 type lazyCase struct {
-	Kind       string                `json:"kind"` // "prog" | "frag" | "repo"
+	Kind       string                `json:"kind"` // "prog" | "frag" | "repo" | "synth"
 	Tracks     []mp4build.Track      `json:"tracks,omitempty"`
 	Layout     *mp4build.ProgLayout  `json:"layout,omitempty"`
 	FTracks    []fragbuild.Track     `json:"ftracks,omitempty"`
 	FLayout    *fragbuild.FileLayout `json:"flayout,omitempty"`
 	Path       string                `json:"path,omitempty"`      // "repo": path relative to the checkout
+	Data       harness.HexBytes      `json:"data,omitempty"`      // "synth": a file written by the grammar generator internal/boxgen (judged like a repository file)
 	Ranges     []rangeQ              `json:"ranges,omitempty"`    // in addition to the ranges the oracle forms itself
 	TrackIndex int                   `json:"trackIndex"`          // progressive: the track whose intervals are evaluated
 	Intervals  [][2]uint32           `json:"intervals,omitempty"` // in addition to the boundary intervals when N > allIntervalsMax
@@ -96,6 +98,10 @@ type lazyCase struct {
 	// the reproducer of one keeps the other one avoided)
 	NoAvoidOnly []string `json:"noAvoidOnly,omitempty"`
 }
+
+// repoLike: inputs not written by the harness' own writers (repository files, grammar-generated files): whatever
+// both modes reject alike is outside the domain.
+func (c *lazyCase) repoLike() bool { return c.Kind == "repo" || c.Kind == "synth" }
 
 type stats struct {
 	queries int64
@@ -281,6 +287,16 @@ func materialise(c *lazyCase) (*material, *harness.Fail) {
 			return nil, nil // not a well-formed box sequence: outside the domain
 		}
 		m.top = top
+	case "synth":
+		if len(c.Data) == 0 {
+			return nil, harness.Failf("harness|c08|bad-case", "no data")
+		}
+		m.file = append([]byte{}, c.Data...)
+		top, err := walkTop(m.file)
+		if err != nil {
+			return nil, nil
+		}
+		m.top = top
 	default:
 		return nil, harness.Failf("harness|c08|bad-case", "kind %q", c.Kind)
 	}
@@ -320,7 +336,7 @@ func materialise(c *lazyCase) (*material, *harness.Fail) {
 				total += len(r)
 			}
 			m.prog = ok && total > 0
-			if c.Kind == "repo" && m.prog {
+			if c.repoLike() && m.prog {
 				for _, tr := range mv.Tracks {
 					for cn := 1; cn <= tr.X.NrChunks(); cn++ {
 						m.seams = append(m.seams, int(tr.X.Chunks[cn].Offset), int(tr.X.Chunks[cn].Offset+tr.X.Chunks[cn].Size))
@@ -405,7 +421,7 @@ func evalLazy(c *lazyCase, st *stats) *harness.Fail {
 		return harness.Failf("C08|DecodeFile|error in one mode only", "in-memory: %v; lazy: %v (well-formed top-level box sequence of %d bytes)", errN, errL, len(file))
 	}
 	if errN != nil {
-		if c.Kind != "repo" {
+		if !c.repoLike() {
 			return harness.Failf("C08|DecodeFile|error on harness-written file (both modes)", "%v", errN)
 		}
 		st.class("repo:undecodable-in-both-modes")
@@ -417,6 +433,7 @@ func evalLazy(c *lazyCase, st *stats) *harness.Fail {
 	if len(fN.Children) != len(m.top) || len(fL.Children) != len(m.top) {
 		return harness.Failf("C08|DecodeFile|number of top-level boxes differs", "in-memory %d, lazy %d, file %d", len(fN.Children), len(fL.Children), len(m.top))
 	}
+	resized := false // some non-mdat box has a re-computed size (both modes alike)
 	for i, tb := range m.top {
 		bn, bl := fN.Children[i], fL.Children[i]
 		st.queries += 2
@@ -424,7 +441,13 @@ func evalLazy(c *lazyCase, st *stats) *harness.Fail {
 			return harness.Failf("C08|DecodeFile|top-level box type differs", "box %d: in-memory %q, lazy %q, file %q", i, bn.Type(), bl.Type(), tb.Type)
 		}
 		if bl.Size() != uint64(tb.Size) {
-			return harness.Failf("C08|Box.Size|lazy: size differs from the size in the file", "box %d %q: Size() = %d, file %d", i, tb.Type, bl.Size(), tb.Size)
+			// the mdat box itself must be exact; for any other box a re-computed size that differs from the one in
+			// the file (64-bit size headers written compactly, at any depth) is the business of the round-trip
+			// checks, as long as the two modes agree on it
+			if tb.Type == "mdat" || bl.Size() != bn.Size() {
+				return harness.Failf("C08|Box.Size|lazy: size differs from the size in the file", "box %d %q: Size() = %d (in-memory %d), file %d", i, tb.Type, bl.Size(), bn.Size(), tb.Size)
+			}
+			resized = true
 		}
 		if bn.Size() != uint64(tb.Size) {
 			// a re-computed size that differs from the one in the file is the business of the round-trip checks
@@ -490,7 +513,7 @@ func evalLazy(c *lazyCase, st *stats) *harness.Fail {
 	fN.FragEncMode, fL.FragEncMode = mp4.EncModeBoxTree, mp4.EncModeBoxTree
 	sizeN, sizeL := fN.Size(), fL.Size()
 	fN.FragEncMode, fL.FragEncMode = modeN, modeL
-	if sizeL != uint64(len(file)) {
+	if sizeL != sizeN || (!resized && sizeL != uint64(len(file))) {
 		return harness.Failf("C08|File.Size|lazy: differs from the file size", "%d (in-memory %d), file %d", sizeL, sizeN, len(file))
 	}
 	if (fN.Mdat == nil) != (fL.Mdat == nil) || (fN.Moov == nil) != (fL.Moov == nil) || (fN.Init == nil) != (fL.Init == nil) || len(fN.Segments) != len(fL.Segments) || len(fN.Sidxs) != len(fL.Sidxs) {
@@ -876,7 +899,7 @@ func (e *evalCtx) checkSamples(fN, fL *mp4.File) *harness.Fail {
 		if fail := one(1, uint32(n), allBufs); fail != nil {
 			return fail
 		}
-		if ti != c.TrackIndex && !(c.Kind == "repo") {
+		if ti != c.TrackIndex && !c.repoLike() {
 			continue
 		}
 		if n <= allIntervalsMax {
@@ -897,7 +920,7 @@ func (e *evalCtx) checkSamples(fN, fL *mp4.File) *harness.Fail {
 			st.class("intervals:boundary+drawn")
 			N := uint32(n)
 			ivs := [][2]uint32{{1, 1}, {N, N}, {1, 2}, {N - 1, N}, {2, N}, {1, N - 1}, {N / 2, N/2 + 1}, {N / 3, 2 * N / 3}}
-			if c.Kind != "repo" || ti == 0 {
+			if !c.repoLike() || ti == 0 {
 				ivs = append(ivs, c.Intervals...)
 			}
 			for k, iv := range ivs {
@@ -1087,15 +1110,23 @@ func record(c *lazyCase, st *stats) {
 func TestLazyMdat(t *testing.T) {
 	harness.RunRapid(t, "lazymdat", func(rt *rapid.T) {
 		var c lazyCase
-		if rapid.IntRange(0, 2).Draw(rt, "kind") == 0 {
+		switch k := rapid.IntRange(0, 4).Draw(rt, "kind"); {
+		case k == 0:
 			c = genFrag(rt)
-		} else {
+		case k == 1:
+			// grammar-generated files: every box type, 64-bit size headers at any level, extra and empty boxes
+			kind := rapid.SampledFrom([]string{"prog", "prog", "frag", "media", "init"}).Draw(rt, "synthKind")
+			c = lazyCase{Kind: "synth", Data: boxgen.File(rt, kind, boxgen.Opt{}), WorkBuf: rapid.IntRange(1, 200).Draw(rt, "workBuf")}
+		default:
 			c = genProg(rt)
 		}
 		raw, _ := json.Marshal(c)
 		m, fail := materialise(&c)
 		if fail != nil {
 			rt.Fatalf("%s: %s", fail.Key, fail.Msg)
+		}
+		if m == nil {
+			rt.Fatalf("harness|c08|generated file is not a box sequence")
 		}
 		nt, classes := classify(&c, m)
 		harness.Rec.Case(nt, raw, classes...)
